@@ -54,6 +54,11 @@ def cases(tier, seed, args):
         for j, kap in enumerate(grid[::2]):
             out.append(dict(t='density', dist='vmf', D=D, L=[], P=1, seed=int(rng.integers(1 << 30)), cond=1.0,
                             kappa_exp=float(np.log10(kap * (1 + 0.2 * rng.random()))), mean_scale=1.0, layout='C', exact_kappa=True))
+    for kap in (0.75, 12.5, 200.0):
+        for D in (2, 5, 3, 6, 4):
+            for dist in ('watson', 'vmf'):
+                out.append(dict(t='density', dist=dist, D=D, L=[2], P=1, seed=int(rng.integers(1 << 30)), cond=1.0,
+                                kappa_exp=float(np.log10(kap)), mean_scale=1.0, layout='C', exact_kappa=True))
     return out
 
 
@@ -150,7 +155,20 @@ def run_case(case):
     yy = y if dist not in ('cacg', 'watson', 'vmf', 'bingham') else y * 10.0 ** rng.uniform(-3, 3, size=(*L, P, 1))
     if dist == 'bingham':
         yy = ml.unit(y)
+    import copy as _copy
+    snap = _copy.deepcopy(obj)
     lp, exc = call(obj.log_pdf, yy)
+    if lp is not None and case['seed'] % 2:
+        # the object is evaluated again (and once on other points in between): same density, same stored parameters
+        call(obj.log_pdf, yy[..., ::-1, :] * (1.0 if dist == 'bingham' else 1.5))
+        lp, exc = call(obj.log_pdf, yy)
+    if lp is not None:
+        import dataclasses as _dc
+        for f_ in _dc.fields(obj):
+            a0, a1 = getattr(snap, f_.name), getattr(obj, f_.name)
+            if isinstance(a0, np.ndarray) and not (np.shape(a0) == np.shape(a1) and np.array_equal(a0, a1, equal_nan=True)):
+                lp, exc = None, 'ModelMutated'        # evaluating a density must not change the distribution object
+                break
     recs = []
     idxs = list(np.ndindex(*L, P))
     rng.shuffle(idxs)
